@@ -35,12 +35,14 @@ def rfc_accepts(pt, bs):
 
 
 @ob('O4.1', 'integrity-protected data: decrypt returns iff the RFC predicate holds on the decrypted octets, and then returns exactly the octets after '
-            'the prefix; otherwise it raises PGPDecryptionError', 'decrypted octet string pt\' fully symbolic, length 32..34 (block size 8) / 40..41 (block size 16)',
-    cond_timeout={'q': 280, 't': 900}, partitions=[['bs == 8', 'len(pt) == %d' % n] for n in (32, 33, 34)] + [['bs == 16', 'len(pt) == %d' % n] for n in (40, 41)])
+            'the prefix; otherwise it raises PGPDecryptionError', 'decrypted octet string pt\' fully symbolic, length 32..34 / 40..41 (quick), 32..40 / 40..46 (thorough) for block sizes 8 / 16',
+    cond_timeout={'q': 280, 't': 1200},
+    partitions={'q': [['bs == 8', 'len(pt) == %d' % n] for n in (32, 33, 34)] + [['bs == 16', 'len(pt) == %d' % n] for n in (40, 41)],
+                't': [['bs == 8', 'len(pt) == %d' % n] for n in range(32, 41)] + [['bs == 16', 'len(pt) == %d' % n] for n in range(40, 47)]})
 def seipd_accept(bs: int, pt: bytes) -> bool:
     """
     pre: bs in (8, 16)
-    pre: bs + 24 <= len(pt) <= bs + 26
+    pre: bs + 24 <= len(pt) <= bs + 32
     post: _
     """
     alg = SymmetricKeyAlgorithm.CAST5 if bs == 8 else SymmetricKeyAlgorithm.AES128
